@@ -561,7 +561,11 @@ impl Monitors {
                 }
                 if app.packet_id == 65535 { self.count("c06.saw_max_id"); }
                 let holders = self.id_holders.entry(app.packet_id).or_default();
-                holders.retain(|oi| !world.ops[*oi].resolved_before(rec.index));
+                // an operation resolved in this very step (e.g. failed by send-time validation or by an ack
+                // timeout inside the same service call, before this packet was encoded) no longer awaits
+                // an acknowledgement; the order of completions and emissions inside one call is not
+                // observable, so such an operation is never counted as a holder
+                holders.retain(|oi| !world.ops[*oi].resolved_before(rec.index + 1));
                 let mut clash: Option<usize> = None;
                 for oi in holders.iter() {
                     let other = &world.ops[*oi];
@@ -580,7 +584,10 @@ impl Monitors {
                 }
             }
 
-            // C09 receive maximum + slow start
+            // C09 receive maximum + slow start. Operations resolved inside this very step (an ack timeout or a
+            // validation failure in the same service call that then sends the next packet) no longer count:
+            // the order of completions and emissions inside one call is not observable.
+            let horizon = rec.index + 1;
             if op.kind.needs_ack() && !op.resolved_before(rec.index) {
                 let rm = caps_k.as_ref().and_then(|k| k.receive_maximum).unwrap_or(65535) as usize;
                 let ops = &world.ops;
@@ -593,10 +600,10 @@ impl Monitors {
                 // still holds that message until PUBCOMP, so it is not "completed" in any reading
                 cmon.inflight_publishes.retain(|t| by_tag.get(t).map(|i| {
                     let o = &ops[*i];
-                    if !o.resolved_before(rec.index) { return true; }
-                    o.completions.iter().any(|(s, _, out)| *s < rec.index && matches!(out, OutcomeView::Pubrec(a) if a.reason < 0x80))
+                    if !o.resolved_before(horizon) { return true; }
+                    o.completions.iter().any(|(s, _, out)| *s < horizon && matches!(out, OutcomeView::Pubrec(a) if a.reason < 0x80))
                 }).unwrap_or(false));
-                cmon.outstanding_ackable.retain(|t| by_tag.get(t).map(|i| !ops[*i].resolved_before(rec.index)).unwrap_or(false));
+                cmon.outstanding_ackable.retain(|t| by_tag.get(t).map(|i| !ops[*i].resolved_before(horizon)).unwrap_or(false));
                 let inflight = cmon.inflight_publishes.len();
                 let outstanding = cmon.outstanding_ackable.len();
                 if op.kind.is_publish() {
@@ -607,14 +614,14 @@ impl Monitors {
                     }
                 }
                 if self.one_at_a_time && caps_k.is_some() {
-                    let pending_interrupted = self.interrupted_set.iter().any(|t| world.op(*t).map(|o| !o.resolved_before(rec.index)).unwrap_or(false));
+                    let pending_interrupted = self.interrupted_set.iter().any(|t| world.op(*t).map(|o| !o.resolved_before(horizon)).unwrap_or(false));
                     if pending_interrupted {
                         self.count("c09.slow_start_evaluated");
                         if outstanding > 1 {
                             self.viol("C09", "C09.R2-slow-start-exceeded", sig(&[]), rec.index, format!("{} acknowledged operations outstanding while interrupted operations are unresolved", outstanding));
                         }
                     }
-                    let pending_carried = !pending_interrupted && self.carried_interrupted_set.iter().any(|t| world.op(*t).map(|o| !o.resolved_before(rec.index)).unwrap_or(false));
+                    let pending_carried = !pending_interrupted && self.carried_interrupted_set.iter().any(|t| world.op(*t).map(|o| !o.resolved_before(horizon)).unwrap_or(false));
                     if pending_carried {
                         self.count("c09.slow_start_evaluated_after_failed_attempt");
                         if outstanding > 1 {
